@@ -5,13 +5,14 @@ from . import genmemview as gm
 reg(Prop("C32",
          [("mvsparse", gm.g_memview_sparse, 5), ("mvbytes", gm.g_memview_bytes, 3), ("mvnil", gm.g_memview_nil, 1),
           ("mvwitness", gm.g_memview_witness, 1)],
-         lambda c: "multi" in c.tags and ("print" in c.tags or "addr-hit" in c.tags or "addr-absent-in-window" in c.tags),
+         lambda c: "multi" in c.tags and ("print" in c.tags or "addr-hit" in c.tags),
          "sparse memories (constant stores, pieces of 1-16 bytes, shuffled, overwritten) and byte memories (initial blocks + "
          "stores) with 0-6 blocks in a ~200 byte region at address 0, low, middle, just below and at the top of the address "
          "space; blocks sharing a window, adjacent windows, gaps of exactly one window; the nil memory; command sequences of "
          "print (heights 0..40), goto/up/down to both ends and beyond (also MaxInt and above), address in every notation with "
          "stored, absent-in-window, outside and malformed arguments, all through the real Commands()[i].Args/Action of "
-         "memview.New(mem); oracle = byte map replayed from the stores -> windows, cells, layout, address row "
+         "memview.New(mem); oracle = byte map replayed from the stores -> windows, cells, layout, address row (a stored "
+         "address selects the row of its window, any other address is an error) "
          "(Spec/MemView.lean), the printed text parsed row by row; non-trivial = at least two rows and a print or a successful "
          "address command",
          3000, 150000,
